@@ -38,7 +38,7 @@ def run(ctx, report, clause_eq="1", clause_immut="2"):
     sizes = [(10, "PERCENT"), (20, "PERCENT"), (10, "PIXEL"), (10.0, "PERCENT"), (10.001, "PERCENT"), (10.004, "PERCENT")]
     points = [(a, b) for a in sizes[:3] for b in sizes[:2]]
     pads = [None, ((1, "PERCENT"),) * 4, ((1, "PERCENT"), (2, "PERCENT"), (1, "PERCENT"), (1, "PERCENT")), ((1, "PIXEL"),) * 4]
-    aligns = [None, ("LEFT", "TOP"), ("LEFT", "BOTTOM"), ("CENTER", "TOP")]
+    aligns = [None, ("LEFT", "TOP"), ("LEFT", "BOTTOM"), ("CENTER", "TOP"), ("START", "TOP"), ("RIGHT", "TOP"), ("END", "TOP")]
     families = {
         "Size": [(s, lambda s=s: size(s)) for s in sizes],
         "Point": [(p, lambda p=p: ev("Point(a, b)", a=size(p[0]), b=size(p[1]))) for p in points],
